@@ -363,9 +363,35 @@ const sensorOnlyDisabled = "genomestart 1\n" +
 	"gene 1 1 4 0.5 false 1 0.5 false\ngene 2 2 5 -1.5 false 2 -1.5 true\ngene 1 5 4 2.0 false 3 2.0 true\ngene 2 3 4 1.0 false 4 1.0 true\n" +
 	"genomeend 1\n"
 
+// a sensor (bias node 5) placed after the neurons in node order: the leading run of sensors is shorter
+// than the set of sensors
+const sensorLast = "genomestart 1\n" +
+	"trait 1 0.1 0 0 0 0 0 0 0\n" +
+	"node 1 1 1 1 NullActivation\nnode 2 1 1 1 NullActivation\nnode 3 1 0 0 SigmoidSteepenedActivation\nnode 4 1 0 2 SigmoidSteepenedActivation\nnode 5 1 1 3 NullActivation\n" +
+	"gene 1 1 3 0.5 false 1 0.5 true\ngene 1 2 3 -0.5 false 2 -0.5 true\ngene 1 3 4 1.5 false 3 1.5 true\ngene 1 5 4 0.25 false 4 0.25 true\n" +
+	"genomeend 1\n"
+
+// a recurrent self-loop on hidden node 5 carries a smaller innovation number than every other gene that touches
+// node 5: in a child the self-loop is the first gene to bring that node in, as both of its endpoints
+const selfLoopFirst = "genomestart 1\n" +
+	"trait 1 0.1 0 0 0 0 0 0 0\n" +
+	"node 1 1 1 1 NullActivation\nnode 2 1 1 1 NullActivation\nnode 3 1 1 3 NullActivation\nnode 4 1 0 2 SigmoidSteepenedActivation\nnode 5 1 0 0 SigmoidSteepenedActivation\n" +
+	"gene 1 1 4 0.5 false 1 0.5 true\ngene 1 2 4 -0.5 false 2 -0.5 true\ngene 1 3 4 0.75 false 3 0.75 true\n" +
+	"gene 1 5 5 0.3 true 4 0.3 true\ngene 1 1 5 1.5 false 5 1.5 true\ngene 1 5 4 -1.25 false 6 -1.25 true\n" +
+	"genomeend 1\n"
+
+// a hidden node (3) whose id is below the output nodes' ids, and an output (5) that no gene touches: children
+// get that output only from the copy of the parents' input/bias/output nodes
+const danglingOutputAfterHidden = "genomestart 1\n" +
+	"trait 1 0.1 0 0 0 0 0 0 0\n" +
+	"node 1 1 1 1 NullActivation\nnode 2 1 1 3 NullActivation\nnode 3 1 0 0 SigmoidSteepenedActivation\nnode 4 1 0 2 SigmoidSteepenedActivation\nnode 5 1 0 2 SigmoidSteepenedActivation\n" +
+	"gene 1 1 3 0.5 false 1 0.5 true\ngene 1 3 4 1.5 false 2 1.5 true\ngene 1 2 4 0.25 false 3 0.25 true\n" +
+	"genomeend 1\n"
+
 func startGenomes() []*genetics.Genome {
-	return []*genetics.Genome{readPlain(xorStart, 1), readPlain(xorDisconnected, 1), readPlain(tinyGenome, 1),
-		readPlain(nilTraitGenes, 1), readPlain(parallelRecurrent, 1), readPlain(bigMostlyIneligible(), 1), readPlain(sensorOnlyDisabled, 1)}
+	return []*genetics.Genome{readPlain(sensorLast, 1), readPlain(xorStart, 1), readPlain(xorDisconnected, 1), readPlain(tinyGenome, 1),
+		readPlain(nilTraitGenes, 1), readPlain(parallelRecurrent, 1), readPlain(bigMostlyIneligible(), 1), readPlain(sensorOnlyDisabled, 1),
+		readPlain(selfLoopFirst, 1), readPlain(danglingOutputAfterHidden, 1)}
 }
 
 func startEnv(g *genetics.Genome) *venv {
